@@ -62,9 +62,9 @@ int main(int argc, char ** argv) {
 		/* metadata */
 		char num[64];
 		bool hb;
-		end = 0; hb = mmd_string_has_metadata(src, &end); snprintf(num, sizeof num, "%d,%lu", hb ? 1 : 0, (unsigned long) end); field("hasS", num, strlen(num));
-		ds = d_string_new(src); end = 0; hb = mmd_d_string_has_metadata(ds, &end); snprintf(num, sizeof num, "%d,%lu", hb ? 1 : 0, (unsigned long) end); field("hasD", num, strlen(num)); d_string_free(ds, true);
-		e = mmd_engine_create_with_string(src, 0); end = 0; hb = mmd_engine_has_metadata(e, &end); snprintf(num, sizeof num, "%d,%lu", hb ? 1 : 0, (unsigned long) end); field("hasE", num, strlen(num));
+		end = 987654321; /* (not 0: a variant that does not write its result must show) */ hb = mmd_string_has_metadata(src, &end); snprintf(num, sizeof num, "%d,%lu", hb ? 1 : 0, (unsigned long) end); field("hasS", num, strlen(num));
+		ds = d_string_new(src); end = 987654321; hb = mmd_d_string_has_metadata(ds, &end); snprintf(num, sizeof num, "%d,%lu", hb ? 1 : 0, (unsigned long) end); field("hasD", num, strlen(num)); d_string_free(ds, true);
+		e = mmd_engine_create_with_string(src, 0); end = 987654321; hb = mmd_engine_has_metadata(e, &end); snprintf(num, sizeof num, "%d,%lu", hb ? 1 : 0, (unsigned long) end); field("hasE", num, strlen(num));
 		{ char * k = mmd_engine_metadata_keys(e); fieldz("keysE", k); }
 		{ char * v = mmd_engine_metavalue_for_key(e, key); field("valE", v, v ? strlen(v) : 0); }
 		mmd_engine_free(e, true);
